@@ -182,6 +182,7 @@ def tasks(tier):
     out.append({"kind": "reject"})
     out.append({"kind": "paren-pairs"})
     out.append({"kind": "callables"})
+    out.append({"kind": "fresh-reads"})
     return out
 
 
@@ -195,11 +196,11 @@ BOUNDS = {
     "(both associations of and/or, not over compounds, comparisons under and/or) in word and tight spelling; each used as cond, as unless, and as an "
     "(the guarded transition declared as a.to(b, ...), b.from_(a, ...) or b.from_.any(...), by task) "
     "element of cond=[plain, expr]; comparisons over and/or/not operands with int values; names provided by machine methods (reads logged; values symbolic ints in [-2,2] / bools), and - depth 2, "
-    "symbol spelling - by plain attributes, properties, the model, coroutine methods (plain names only); 5 pairs of expressions differing only in parentheses used together in one cond list; entries given as callables (two / three lambdas, lambda + name, two functions sharing a __name__, one function twice, lambda cond + lambda unless) with symbolic values; 27 strings that must be rejected at instantiation, alone and next to valid guard entries.",
+    "symbol spelling - by plain attributes, properties, the model, coroutine methods (plain names only); 5 pairs of expressions differing only in parentheses used together in one cond list; three candidates of one event sharing one guard whose value changes between reads (4 spellings, cond / unless); entries given as callables (two / three lambdas, lambda + name, two functions sharing a __name__, one function twice, lambda cond + lambda unless) with symbolic values; 27 strings that must be rejected at instantiation, alone and next to valid guard entries.",
     "thorough": "leaves also False and 1, word operators with tight comparisons, int values at depth 2.",
 }
 OUTSIDE = "nesting deeper than 2; string/float literals and values; names spelled exactly 'v'; coroutine operands inside expressions (C05, known finding); guard names provided by several objects at once (C12)"
-OBLIGATIONS = ["callable-entries", "paren-pair", "fired", "blocked", "short-circuit", "chained", "tight-spelling", "rejected-syntax", "rejected-unknown-name", "rejected-outside-grammar", "unless", "list"]
+OBLIGATIONS = ["fresh-read-per-candidate", "callable-entries", "paren-pair", "fired", "blocked", "short-circuit", "chained", "tight-spelling", "rejected-syntax", "rejected-unknown-name", "rejected-outside-grammar", "unless", "list"]
 ASSUMPTIONS = [
     "read order is compared after collapsing immediately repeated reads of one name: the library reads the middle operand of a chained comparison twice, which tests/test_spec_parser.py pins (xfail 'evaluate once')",
     "valid Python outside the documented grammar (a + b, a.b, a if b else c) must fail when the machine is instantiated; the exception type is not constrained",
@@ -268,7 +269,7 @@ def run_paren_pairs(ctx):
 
 
 def run_callable_entries(ctx):
-    """cond / unless entries given as callables (lambdas, plain functions, the same function twice, functions that
+    """cond / unless three candidates of one event sharing one guard whose value changes between reads (4 spellings, cond / unless); entries given as callables (lambdas, plain functions, the same function twice, functions that
     merely share a __name__), alone and mixed with names: the transition is enabled iff every cond entry is truthy and
     every unless entry is falsy."""
     from statemachine import State, StateMachine
@@ -341,7 +342,56 @@ def run_callable_entries(ctx):
     ctx.cover("callable-entries")
 
 
+def run_fresh_reads(ctx):
+    """Two or three candidate transitions of one event share a guard (same name / same expression): each evaluation
+    reads the *current* value - a value that changed after an earlier candidate was refused decides the later one."""
+    from statemachine import State, StateMachine
+
+    spellings = ["flip", "flip and steady", "not flip", "flip == 1"]
+    sp = spellings[ctx.choose(len(spellings), "spelling")]
+    usage = ["cond", "unless"][ctx.choose(2, "usage")]
+    seq = [ctx.sym_int(f"flip.{i}", 0, 1) for i in range(3)]
+    reads = []
+
+    def flip(self):
+        k = len(reads)
+        reads.append(k)
+        return seq[min(k, 2)]
+
+    with ctx.notracing():
+        a, b, c, d = State(initial=True), State(), State(), State()
+        kw = {usage: sp}
+        attrs = {"a": a, "b": b, "c": c, "d": d, "go": a.to(b, **kw) | a.to(c, **kw) | a.to(d, **kw), "back": b.to(a) | c.to(a) | d.to(a),
+                 "flip": flip, "steady": lambda self: True}
+        attrs["flip"].__qualname__ = "C08F.flip"
+        attrs["steady"].__qualname__ = "C08F.steady"
+        cls = type(StateMachine)("C08F", (StateMachine,), attrs)
+    sm = cls()
+    del reads[:]
+    try:
+        sm.send("go")
+        got = sm.current_state.id
+    except sm.TransitionNotAllowed:
+        got = "refused"
+
+    def passes(v):
+        v = int(v)
+        val = {"flip": bool(v), "flip and steady": bool(v), "not flip": not v, "flip == 1": v == 1}[sp]
+        return val if usage == "cond" else not val
+
+    want = "refused"
+    for k, tgt in enumerate(("b", "c", "d")):
+        if passes(seq[k]):
+            want = tgt
+            break
+    if got != want:
+        raise Mismatch(f"guard-value-reused-across-candidates:{usage}", f"{usage}={sp!r} on three candidates; flip returned {[int(x) for x in seq]} on successive reads ({len(reads)} read(s) happened): expected {want}, got {got}")
+    ctx.cover("fresh-read-per-candidate")
+
+
 def run(ctx, params):
+    if params["kind"] == "fresh-reads":
+        return run_fresh_reads(ctx)
     if params["kind"] == "callables":
         return run_callable_entries(ctx)
     if params["kind"] == "reject":
